@@ -140,7 +140,9 @@ func (d *dealerPart) Ignore(w *World, s int, m wamp.Message) bool {
 		}
 		// a callee that took part in a call outside the exact model (silent party):
 		// the INTERRUPT of that call carries an invocation id the model never saw
-		if d.greyParty[s] {
+		if d.greyParty[s] && !d.usedInv[s][m.Request] {
+			// (an invocation id the model routed itself is judged exactly, also after
+			// the model has finished the call in this very step)
 			if _, live := d.invs[ck{s, m.Request}]; !live {
 				return true
 			}
